@@ -200,7 +200,11 @@ func (g *Gen) structSort(t types.Type, u *types.Struct) string {
 
 func (g *Gen) fieldAcc(t types.Type, i int) string {
 	u := t.Underlying().(*types.Struct)
-	return "f_" + typeKey(t) + "_" + mangle(u.Field(i).Name())
+	n := u.Field(i).Name()
+	if n == "_" {
+		n = fmt.Sprintf("blank%d", i)
+	}
+	return "f_" + typeKey(t) + "_" + mangle(n)
 }
 
 func (g *Gen) mkStruct(t types.Type, fields []string) string {
